@@ -135,24 +135,14 @@ Section WithEnv.
 (* [io_mask_bug] = true models the pinned tickit_watch_io, which masks the bind flags with
    UNBIND|UNBIND and so forgets TICKIT_BIND_DESTROY *)
 Variable io_mask_bug : bool.
+(* [env cb]: what callback cb does when invoked with FIRE; [uenv cb]: what it does when it is
+   invoked with the bare UNBIND notification of tickit_watch_cancel -- registrations only
+   (a cancel inside an unbind notification is not part of the script language) *)
 Variable env : Z -> list action.
+Variable uenv : Z -> list action.
 
-Definition notify_unbind (s : st) (w : watch) : st :=
-  if w_unbind w then emit s w EV_UNBIND else s.
-
-(* tickit_watch_cancel: the watch's type selects the queue; timers and laters may also sit
-   in the running queues.  Unlink, notify if asked, (free). *)
-Definition watch_cancel (s : st) (id : Z) : st :=
-  match find_remove id (ios s) with Some (w, l) => notify_unbind (set_ios s l) w | None =>
-  match find_remove id (timers s) with Some (w, l) => notify_unbind (set_timers s l) w | None =>
-  match find_remove id (run_timers s) with Some (w, l) => notify_unbind (set_run_timers s l) w | None =>
-  match find_remove id (laters s) with Some (w, l) => notify_unbind (set_laters s l) w | None =>
-  match find_remove id (run_laters s) with Some (w, l) => notify_unbind (set_run_laters s l) w | None =>
-  match find_remove id (sigs s) with Some (w, l) => notify_unbind (set_sigs s l) w | None =>
-  match find_remove id (procs s) with Some (w, l) => notify_unbind (set_procs s l) w | None =>
-  s end end end end end end end.
-
-Definition do_action (s : st) (a : action) : st :=
+(* the registering API calls *)
+Definition do_reg (s : st) (a : action) : st :=
   match a with
   | ATimer d fl cb =>
       let w := mkW (next_id s) KTimer (f_unbind fl) (f_destroy fl) cb (now s + d) in
@@ -170,8 +160,33 @@ Definition do_action (s : st) (a : action) : st :=
       let w := mkW (next_id s) KProc (f_unbind fl) (f_destroy fl) cb 0 in
       set_next (set_procs s (insert_watch (f_first fl) (procs s) w)) (next_id s + 1)
   | AWatch _ _ _ _ => s
-  | ACancel id => watch_cancel s id
+  | ACancel _ => s
   | ANop => s
+  end.
+
+Definition do_regs (s : st) (l : list action) : st := fold_left do_reg l s.
+
+(* the UNBIND notification of a cancel: the callback is invoked (the watch is already
+   unlinked) and may register new watches *)
+Definition notify_unbind (s : st) (w : watch) : st :=
+  if w_unbind w then do_regs (emit s w EV_UNBIND) (uenv (w_cb w)) else s.
+
+(* tickit_watch_cancel: the watch's type selects the queue; timers and laters may also sit
+   in the running queues.  Unlink, notify if asked, (free). *)
+Definition watch_cancel (s : st) (id : Z) : st :=
+  match find_remove id (ios s) with Some (w, l) => notify_unbind (set_ios s l) w | None =>
+  match find_remove id (timers s) with Some (w, l) => notify_unbind (set_timers s l) w | None =>
+  match find_remove id (run_timers s) with Some (w, l) => notify_unbind (set_run_timers s l) w | None =>
+  match find_remove id (laters s) with Some (w, l) => notify_unbind (set_laters s l) w | None =>
+  match find_remove id (run_laters s) with Some (w, l) => notify_unbind (set_run_laters s l) w | None =>
+  match find_remove id (sigs s) with Some (w, l) => notify_unbind (set_sigs s l) w | None =>
+  match find_remove id (procs s) with Some (w, l) => notify_unbind (set_procs s l) w | None =>
+  s end end end end end end end.
+
+Definition do_action (s : st) (a : action) : st :=
+  match a with
+  | ACancel id => watch_cancel s id
+  | _ => do_reg s a
   end.
 
 Definition do_actions (s : st) (l : list action) : st := fold_left do_action l s.
